@@ -156,7 +156,7 @@ func TestSequential(t *testing.T) {
 		}
 		lastGetPart := ""
 		var lastGet *appencryption.Session
-		var lastGetAt time.Time
+		firstSeen := map[*appencryption.Session]time.Time{}
 		n := 0
 		t.Repeat(map[string]func(*rapid.T){
 			"get": func(t *rapid.T) {
@@ -167,7 +167,12 @@ func TestSequential(t *testing.T) {
 					bad("GetSession(" + part + ") failed: " + err.Error())
 				}
 				now := verifhook.Now()
-				if part == lastGetPart && (c.pol.SessionCacheDuration == 0 || now.Sub(lastGetAt) < c.pol.SessionCacheDuration) && s != lastGet {
+				if _, seen := firstSeen[s]; !seen {
+					firstSeen[s] = now
+				}
+				// the cache entry's lifetime counts from when the session was put into the cache (first handed out),
+				// not from the last request for it
+				if part == lastGetPart && (c.pol.SessionCacheDuration == 0 || now.Sub(firstSeen[lastGet]) < c.pol.SessionCacheDuration) && s != lastGet {
 					bad(fmt.Sprintf("two consecutive GetSession(%s) calls with no other partition requested and no expiry in between returned different underlying sessions", part))
 				}
 				for _, h := range handles {
@@ -175,7 +180,7 @@ func TestSequential(t *testing.T) {
 						h.stale = true
 					}
 				}
-				lastGetPart, lastGet, lastGetAt = part, s, now
+				lastGetPart, lastGet = part, s
 				handles = append(handles, &handle{s: s, part: part})
 			},
 			"use": func(t *rapid.T) {
